@@ -1081,12 +1081,30 @@ pub fn check_layout_wellformed(db: &DB, layout: &[Vec<VerifFileMeta>], check_ent
         Ok(text) => {
             let mut lvl = 0usize;
             let mut per_level: Vec<Vec<u64>> = vec![vec![]; layout.len()];
+            let mut lines_of: std::collections::BTreeMap<u64, String> = Default::default();
             for line in text.lines() {
                 if let Some(rest) = line.strip_prefix("--- Level ") {
                     lvl = rest.trim_end_matches(" ---").parse().unwrap_or(0);
                 } else if let Some(num) = line.split(' ').next().and_then(|s| s.parse::<u64>().ok()) {
                     if lvl < per_level.len() {
                         per_level[lvl].push(num);
+                    }
+                    lines_of.insert(num, line.to_string());
+                }
+            }
+            // the key range printed for every file is the file's range: number, size, smallest and
+            // largest internal key (user key as lossy UTF-8 with debug escapes, sequence number,
+            // operation) — rendered here from the structured layout and compared literally
+            let show = |k: &(Vec<u8>, u64, bool)| format!("{} @ {} : {}", String::from_utf8_lossy(&k.0).escape_debug(), k.1, if k.2 { "Put" } else { "Delete" });
+            for f in layout.iter().flatten() {
+                let want = format!("{} (size: {})[{}..{}]", f.number, f.size, show(&f.smallest), show(&f.largest));
+                if let Some(got) = lines_of.get(&f.number) {
+                    if *got != want {
+                        let cut = |s: &str| s.chars().take(160).collect::<String>();
+                        return Err(Violation::new(
+                            "C10.desc_mismatch",
+                            format!("SSTables reports `{}` for file {} but its range in the layout is `{}`", cut(got), f.number, cut(&want)),
+                        ));
                     }
                 }
             }
